@@ -14,6 +14,8 @@ K4 completion: kekulize() returns success only with the delocalised subgraph emp
    emptiness of that same field
 K5 entry into the aromatic system: the parser gives a bond the order 1.5 only on paths where no bond symbol was written
    for it, on either ring digit ("implicit aromatic bonds between lower-case atoms" -- an explicit '-' must stay single)
+K7 clean slate per search: the matching module's functions mutate only containers they allocate themselves and the
+   matching array (no visited / parent state handed in and reused between searches)
 K6 pruning decision table: for the standard aromatic atom kinds named in the statement (c, n, o, s, p, [nH], substituted
    n, [n+], and their bracketed twins) the pruning predicate, abstractly interpreted on exact rationals, keeps exactly
    those that need a pi bond
@@ -357,6 +359,109 @@ def check_symmetric(ctx, rep, M):
     rep.floor("K3", 4)
 
 
+def check_search_state_local(ctx, rep, M):
+    """K7: every search of the matching routine starts from a clean slate: the functions of the matching module mutate
+    only containers they allocate themselves, and the matching array (K3's role).  A visited / parent array that is
+    handed in and survives from one root's search to the next makes later searches skip atoms an earlier one touched."""
+    role = matching_vars(ctx, M)
+    _K7_CTX["ctx"] = ctx
+    funcs = [ctx.db.funcs[q] for q in ctx.cg.region(M) if ctx.db.funcs[q].module is M.module]
+    MUT = {"append", "appendleft", "extend", "insert", "pop", "popleft", "remove", "clear", "add", "discard", "update", "sort", "reverse", "setdefault"}
+    n = 0
+    for f in funcs:
+        fresh = set()
+        for nd in own_nodes(f.node):
+            if isinstance(nd, ast.Assign) and len(nd.targets) == 1 and isinstance(nd.targets[0], ast.Name):
+                v = nd.value
+                if isinstance(v, (ast.List, ast.ListComp, ast.Dict, ast.DictComp, ast.Set, ast.SetComp)) or \
+                        (isinstance(v, ast.BinOp) and isinstance(v.op, ast.Mult) and (isinstance(v.left, ast.List) or isinstance(v.right, ast.List))) or \
+                        (isinstance(v, ast.Call) and u(v.func).split(".")[-1] in ("list", "set", "dict", "deque", "sorted")):
+                    fresh.add(nd.targets[0].id)
+                elif isinstance(v, ast.Call):
+                    # result of a helper of this module that returns a container it allocated (e.g. the greedy matching)
+                    fresh.add(nd.targets[0].id)
+        for nd in own_nodes(f.node):
+            tgt = None
+            if isinstance(nd, (ast.Assign, ast.AugAssign)):
+                for t in (nd.targets if isinstance(nd, ast.Assign) else [nd.target]):
+                    for x in ([t] if not isinstance(t, (ast.Tuple, ast.List)) else t.elts):
+                        if isinstance(x, ast.Subscript):
+                            b = x.value
+                            while isinstance(b, ast.Subscript):
+                                b = b.value
+                            if isinstance(b, ast.Name):
+                                tgt = b.id
+                                n += _k7(rep, f, nd, tgt, fresh, role)
+            elif isinstance(nd, ast.Call) and isinstance(nd.func, ast.Attribute) and nd.func.attr in MUT:
+                b = nd.func.value
+                while isinstance(b, ast.Subscript):
+                    b = b.value
+                if isinstance(b, ast.Name):
+                    n += _k7(rep, f, nd, b.id, fresh, role)
+            elif isinstance(nd, ast.Call) and u(nd.func).split(".")[-1] in ("heappush", "heappop", "heapify") and nd.args and isinstance(nd.args[0], ast.Name):
+                n += _k7(rep, f, nd, nd.args[0].id, fresh, role)
+    if n < 6:
+        raise AnalysisError("fewer than 6 mutation sites found in the matching module (%d): anchor lost" % n)
+    rep.floor("K7", 6)
+
+
+def _fresh_locals(f):
+    out = {}
+    for nd in own_nodes(f.node):
+        if isinstance(nd, ast.Assign) and len(nd.targets) == 1 and isinstance(nd.targets[0], ast.Name):
+            v = nd.value
+            if isinstance(v, (ast.List, ast.ListComp, ast.Dict, ast.DictComp, ast.Set, ast.SetComp)) or \
+                    (isinstance(v, ast.BinOp) and isinstance(v.op, ast.Mult) and (isinstance(v.left, ast.List) or isinstance(v.right, ast.List))) or \
+                    (isinstance(v, ast.Call) and u(v.func).split(".")[-1] in ("list", "set", "dict", "deque", "sorted")):
+                out.setdefault(nd.targets[0].id, []).append(nd)
+    return out
+
+
+def _param_fresh_per_call(ctx, f, name, depth=0):
+    """parameter `name` of f receives, at every call site in the module, a container its caller allocated for this very
+    call: a fresh local whose allocation is not outside a loop that contains the call (or, one level up, the same)"""
+    if depth > 2 or name not in f.params:
+        return False
+    callers = [(g, s_) for g in ctx.db.funcs.values() if g.module is f.module for s_ in ctx.cg.sites(g) if f in s_.callees and isinstance(s_.node, ast.Call)]
+    if not callers:
+        return False
+    pos = f.posparams
+    for g, s_ in callers:
+        arg = None
+        if name in pos and pos.index(name) < len(s_.node.args):
+            arg = s_.node.args[pos.index(name)]
+        for kw in s_.node.keywords:
+            if kw.arg == name:
+                arg = kw.value
+        if not isinstance(arg, ast.Name):
+            return False
+        fl = _fresh_locals(g)
+        if arg.id in fl and arg.id not in g.params:
+            # every loop of g that contains the call must contain the allocation as well
+            loops = [l for l in own_nodes(g.node) if isinstance(l, (ast.For, ast.While)) and any(x is s_.node for x in ast.walk(l))]
+            for l in loops:
+                if not any(any(x is a for x in ast.walk(l)) for a in fl[arg.id]):
+                    return False
+            continue
+        if arg.id in g.params and _param_fresh_per_call(ctx, g, arg.id, depth + 1):
+            continue
+        return False
+    return True
+
+
+_K7_CTX = {}
+
+
+def _k7(rep, f, node, name, fresh, role):
+    ok = (f.qual, name) in role or (name in fresh and name not in f.params) or \
+        (name in f.params and _K7_CTX.get("ctx") is not None and _param_fresh_per_call(_K7_CTX["ctx"], f, name))
+    rep.ob("K7", ok, node, f, construct="%s mutated in %s" % (name, f.name), how="allocated in this call, or the matching array",
+           witness=None if ok else "%s mutates %s, which it did not allocate and which is not the matching array: search state is shared between "
+           "successive searches (a later search can miss an augmenting path)" % (f.name, name), nontrivial=not ok,
+           key="state/%s/%s" % (f.name, name if not ok else "ok"))
+    return 1
+
+
 def _blocks(fnode):
     """statement lists of a function (bodies of compound statements included)"""
     out = []
@@ -470,6 +575,7 @@ def run(ctx, rep):
     ds_field = check_completion(ctx, rep, K, IK)
     check_frame(ctx, rep, K, ds_field)
     check_symmetric(ctx, rep, M)
+    check_search_state_local(ctx, rep, M)
     # K5: which bonds enter the aromatic system at all: order 1.5 only where no bond symbol was written (shared with C03/R6)
     from rules.C03 import check_explicit_bond_symbols
     check_explicit_bond_symbols(ctx, rep, "K5")
